@@ -135,6 +135,8 @@ pub struct Engine<W: WorldSpec> {
     pub heavy_audit: bool,
     pub scan_every: u32,
     pub state_hashes: BTreeSet<u64>,
+    /// distinct (operation in flight, callback index bucket, scheduler choice at that callback)
+    pub interleavings: BTreeSet<u64>,
     /// (op index, kind, count) of the yield points each operation reached (for fault enumeration)
     pub yields: Vec<(u32, u8, u32)>,
 }
@@ -187,6 +189,7 @@ impl<W: WorldSpec> Engine<W> {
             heavy_audit: false,
             scan_every: 4,
             state_hashes: BTreeSet::new(),
+            interleavings: BTreeSet::new(),
             yields: Vec::new(),
         };
         // with_capacity(n): capacity() >= n
